@@ -456,7 +456,7 @@ def check_knot_spacing(prog, ctx):
     ctx.floor("C10.D7", n, 1, "uniform knot vectors in the local B-spline grid")
 
 
-def check_quadrature_nodes_not_modified(prog, ctx):
+def check_quadrature_nodes_not_modified(prog, ctx, rule="C10.D8"):
     """D8: get_integral receives the grid's shared Gauss nodes / weights; a local that is updated in place must be a COPY of the
     parameter (np.array(p), p.copy(), an arithmetic expression), never the parameter itself or np.asarray(p)."""
     bf = prog.cls(BF + "BasisFunction")
@@ -483,12 +483,12 @@ def check_quadrature_nodes_not_modified(prog, ctx):
                 continue
             n += 1
             if aliasing:
-                ctx.violation("C10.D8", R.key_of(fi, "in-place-on-parameter:%s" % st.target.id), fi.loc(st),
+                ctx.violation(rule, R.key_of(fi, "in-place-on-parameter:%s" % st.target.id), fi.loc(st),
                               "`%s` updates `%s` in place, and `%s` binds it to the caller's array without copying: the grid's shared quadrature "
                               "nodes are rewritten, every later basis integral uses shifted nodes" % (src(st), st.target.id, src(aliasing[0].stmt)))
                 break
         else:
             continue
-    if not any(i.rule == "C10.D8" and i.status == "violation" for i in ctx.instances):
-        ctx.ok("C10.D8", BF + "BasisFunction::get_integral-copies", "sparseSpACE/BasisFunctions.py",
+    if not any(i.rule == rule and i.status == "violation" for i in ctx.instances):
+        ctx.ok(rule, BF + "BasisFunction::get_integral-copies", "sparseSpACE/BasisFunctions.py",
                "%d in-place updates in get_integral overrides, all on copies of the parameters" % n)
